@@ -449,6 +449,24 @@ func c04Composite(c *kc.Ctx) {
 		decReportComposite(c, "cosi.Verify/"+gname, ins, sig, func(b []byte) error {
 			return cosi.Verify(suite, pubs, msg, b, cosi.NewThresholdPolicy(n))
 		}, func(in decInput) bool { return in.fam == "mask-bits-beyond-n" })
+		// small rosters, the empty (non-nil) one included: every prefix of V ‖ r ‖ mask, in a buffer without
+		// spare capacity, is answered with an error or a verdict, never a panic
+		sl := g.Group.ScalarLen()
+		for _, rn := range []int{0, 1, 2} {
+			roster := pubs[:rn]
+			full := decCat(sig[:pl+sl], decFill((rn+7)/8, 0xff))
+			for cut := 0; cut <= len(full)+1; cut++ {
+				b := make([]byte, cut)
+				copy(b, decCat(full, []byte{0}))
+				got := decRunGuarded(func() error { return cosi.Verify(suite, roster, msg, b, cosi.NewThresholdPolicy(rn)) })
+				c.Eval(1)
+				c.CountKind(fmt.Sprintf("composite:cosi.Verify/%s:roster-%d-prefix", gname, rn))
+				if got == "panic" || got == "timeout" {
+					c.Violation(fmt.Sprintf("cosi.Verify/%s:%s:roster-%d", gname, got, rn), fmt.Sprintf("cosi.Verify %s on a %d-byte signature with a roster of %d keys", got+"s", cut, rn),
+						map[string]string{"group": gname, "roster": fmt.Sprint(rn), "sig": kc.HexB(b)})
+				}
+			}
+		}
 		var lines []string
 		for _, in := range ins {
 			lines = append(lines, fmt.Sprintf("parse cosi %x %x %x %s", pl, g.Group.ScalarLen(), (n+7)/8, kc.HexB(in.b)))
